@@ -9,8 +9,8 @@
 // attributes the death to the case that was running ("crash" field) and forks a new child for the rest.
 #include "common.hpp"
 #include <cmath>
+#include <cerrno>
 #include <csignal>
-#include <sys/mman.h>
 #include <sys/resource.h>
 #include <sys/wait.h>
 #include <unistd.h>
@@ -193,9 +193,15 @@ static std::string crashEvent(const J& c, const std::string& how, pid_t pid) {
     if (c.has("bits")) o += ",\"bits\":" + w4(fromHex(c.str("bits")));
     return o + ",\"crash\":" + jstr(how) + ",\"pid\":" + std::to_string((long)pid) + "}\n";
 }
-static void writeAll(const std::string& s) {
+static void writeAll(int fd, const std::string& s) {
     size_t off = 0;
-    while (off < s.size()) { ssize_t n = write(1, s.data() + off, s.size() - off); if (n <= 0) _exit(3); off += (size_t)n; }
+    while (off < s.size()) { ssize_t n = write(fd, s.data() + off, s.size() - off); if (n <= 0) _exit(3); off += (size_t)n; }
+}
+static bool wellFormedLine(const std::string& l) {
+    static const char pre[] = "{\"e\":\"Conv\",\"dir\":\"";
+    if (l.size() < sizeof pre || l.compare(0, sizeof pre - 1, pre) != 0 || l.back() != '}') return false;
+    for (unsigned char c : l) if (c < 0x20 || c > 0x7e) return false;
+    return true;
 }
 
 int main(int argc, char** argv) {
@@ -205,41 +211,62 @@ int main(int argc, char** argv) {
     setrlimit(RLIMIT_CORE, &rl);
     std::vector<J> cases;
     for (auto& line : readLines(argv[1])) cases.push_back(parseJson(line));
-    volatile long* progress = (volatile long*)mmap(nullptr, sizeof(long), PROT_READ | PROT_WRITE, MAP_SHARED | MAP_ANONYMOUS, -1, 0);
-    if (progress == MAP_FAILED) { perror("mmap"); return 2; }
     Platform platform;
     XPathEvaluator::initialize();
     size_t start = 0;
     int rc = 0;
+    // A child runs the cases from `start` and sends one line per finished case through a pipe.  The parent accepts
+    // the well-formed lines in order; when the child does not finish normally, the first case without an accepted
+    // line is the one it died in (a child with a smashed stack may write anything before it dies, so whatever
+    // follows the last accepted line is discarded).
     while (start < cases.size()) {
-        *progress = (long)start;
+        int fds[2];
+        if (pipe(fds) != 0) { perror("pipe"); return 2; }
         const pid_t pid = fork();
         if (pid < 0) { perror("fork"); return 2; }
         if (pid == 0) {
+            close(fds[0]);
             {
                 Env env(xpath);
                 for (size_t i = start; i < cases.size(); ++i) {
-                    *progress = (long)i;
                     alarm(20);
-                    writeAll(runCase(cases[i], env));     // one write per finished case; nothing is written for a case that dies
+                    writeAll(fds[1], runCase(cases[i], env));
                 }
                 alarm(0);
-                *progress = (long)cases.size();
             }
             _exit(0);
         }
+        close(fds[1]);
+        std::string data;
+        char buf[65536];
+        for (;;) {
+            const ssize_t n = read(fds[0], buf, sizeof buf);
+            if (n > 0) data.append(buf, (size_t)n); else if (n == 0 || errno != EINTR) break;
+        }
+        close(fds[0]);
         int st = 0;
         if (waitpid(pid, &st, 0) < 0) { perror("waitpid"); return 2; }
-        if (WIFEXITED(st) && WEXITSTATUS(st) == 0 && (size_t)*progress == cases.size()) break;
         if (WIFEXITED(st) && (WEXITSTATUS(st) == 2 || WEXITSTATUS(st) == 3)) { rc = 2; break; }   // harness usage error
-        const size_t k = (size_t)*progress;
-        if (k >= cases.size()) break;                  // died after the last case: nothing to attribute
+        size_t accepted = 0, pos = 0;
+        std::string good;
+        while (start + accepted < cases.size()) {
+            const size_t nl = data.find('\n', pos);
+            if (nl == std::string::npos) break;
+            const std::string line = data.substr(pos, nl - pos);
+            const std::string want = "{\"e\":\"Conv\",\"dir\":" + jstr(cases[start + accepted].str("dir"));
+            if (!wellFormedLine(line) || line.compare(0, want.size(), want) != 0) break;
+            good += line; good += '\n';
+            pos = nl + 1; ++accepted;
+        }
+        writeAll(1, good);
+        const size_t k = start + accepted;
+        if (k >= cases.size()) break;                  // every case has its event
         std::string how;
         if (WIFSIGNALED(st)) {
             const int sg = WTERMSIG(st);
             how = sg == SIGSEGV ? "SIGSEGV" : sg == SIGABRT ? "SIGABRT" : sg == SIGALRM ? "TIMEOUT" : sg == SIGBUS ? "SIGBUS" : sg == SIGFPE ? "SIGFPE" : "signal:" + std::to_string(sg);
         } else how = "exit:" + std::to_string(WEXITSTATUS(st));
-        writeAll(crashEvent(cases[k], how, pid));
+        writeAll(1, crashEvent(cases[k], how, pid));
         start = k + 1;
     }
     XPathEvaluator::terminate();
